@@ -186,6 +186,14 @@ class P:
         if tk[0] == 'id' and self.peek(1) == ('op', '='):
             v = self.eat()[1]; self.eat(); e = self.expr(); self.eat('op', ';')
             return [('assign', v, e)]
+        if tk == ('id', 'int') and self.peek(1)[0] == 'id' and self.peek(2) == ('op', '='):
+            # `int id = MAT_ID(x);` : a declaration with a single initialised integer is an assignment
+            save = self.i
+            try:
+                self.eat(); v = self.eat()[1]; self.eat(); e = self.expr(); self.eat('op', ';')
+                return [('assign', v, e)]
+            except Untranslatable:
+                self.i = save
         if tk[0] == 'id' and tk[1] in ('double', 'int', 'number', 'complex', 'void', 'char', 'int_t', 'matrix', 'PyObject'):
             # a local declaration (possibly with initialiser): no check, no effect on the integer arguments
             d = 0
@@ -222,7 +230,7 @@ def strip_pp(src):
         if all(stack): out.append(line)
     return '\n'.join(out)
 
-def routines(cfile, tolerant=False):
+def routines(cfile, tolerant=False, end_markers=(), only=None):
     src = strip_pp(open(os.path.join(REPO, 'src', 'C', cfile)).read())
     errs = err_classes()
     res = []
@@ -262,7 +270,11 @@ def routines(cfile, tolerant=False):
         nreq = len(fm.group(1).split('|')[0]) if fm else 0
         pa = body.find('PyArg_ParseTupleAndKeywords')
         j = body.find('return NULL;', pa) + len('return NULL;')
+        if only is not None and name not in only: continue
         end = body.find('switch (', j)
+        for mk in end_markers:          # files whose wrappers do not dispatch with a switch: the checks end at the first of these markers
+            e2 = body.find(mk, j)
+            if e2 >= 0 and (end < 0 or e2 < end): end = e2
         swm = re.match(r'switch \(\s*MAT_ID\((\w+)\)', body[end:]) if end >= 0 else None
         if end < 0: raise Untranslatable('%s: no switch after the checks' % name)
         prefix = body[j:end]
@@ -396,9 +408,9 @@ class Emit:
                     [pad + 'by_cases %s : %s' % (nm, c), pad + '· rw [if_pos %s] at h' % nm] + p1 + [pad + '· rw [if_neg %s] at h' % nm] + p2)
         raise Untranslatable('statement %s' % (s,))
 
-def gen_wrap(cfile, ns, modname, pyname, tolerant=False):
+def gen_wrap(cfile, ns, modname, pyname, tolerant=False, end_markers=(), only=None):
     """Gen/<modname>.lean: the argument checks of every wrapper of src/C/<cfile> as pure Lean functions (namespace CvxVerif.Gen.<ns>)"""
-    rs = routines(cfile, tolerant=tolerant)
+    rs = routines(cfile, tolerant=tolerant, end_markers=end_markers, only=only)
     out = ['/- GENERATED by tools/translate/cwrap2lean.py from /repo/src/C/%s. Do not edit. -/' % cfile,
            'import CvxVerif.Model.CWrap', 'set_option linter.unusedVariables false', 'set_option maxRecDepth 4000',
            'namespace CvxVerif.Gen.%s' % ns, 'open CvxVerif.CWrap', '']
@@ -431,6 +443,9 @@ def gen_wrap(cfile, ns, modname, pyname, tolerant=False):
 
 def gen_blas(): return gen_wrap('blas.c', 'Blas', 'BlasWrap', 'blas')
 def gen_lapack(): return gen_wrap('lapack.c', 'Lapack', 'LapackWrap', 'lapack', tolerant=True)
+def gen_base():
+    """the two generic products of base.c that take integer arguments (gemv, symv): the checks end where alpha / beta are converted"""
+    return gen_wrap('base.c', 'Base', 'BaseWrap', 'base', tolerant=True, end_markers=('if (ao &&',), only=('base_gemv', 'base_symv'))
 
 def FLAGVAR(fl): return fl
 
@@ -438,6 +453,11 @@ def gen_blas_safety(table=None):
     """Gen/C19Safe.lean: one theorem per routine, `accept -> footprint inside the buffers`, statements from footprints.py"""
     import footprints
     return gen_safety(table or gen_blas(), footprints.FOOT, 'blas', 'Blas', 'BlasWrap', 'footprints.py', 'BLAS', 'C19_safe_', 'C19Safe', '')
+
+def gen_base_safety(table=None):
+    """Gen/C19SafeB.lean: dense paths of base.gemv / base.symv, statements from footprints_base.py"""
+    import footprints_base
+    return gen_safety(table or gen_base(), footprints_base.FOOT, 'base', 'Base', 'BaseWrap', 'footprints_base.py', 'BLAS', 'C19_safe_', 'C19SafeB', 'B')
 
 def gen_lapack_safety(table=None):
     """Gen/C19SafeL.lean: the same for the wrappers of lapack.c, statements from footprints_lapack.py"""
@@ -473,7 +493,7 @@ def gen_safety(table, FOOT, pyname, ns, wrapmod, footfile, LIB, thmprefix, idxmo
         flags = sorted(set(_re.findall(r"if (\w+)' = (\d+)", stmt)))
         final = ['simp only [Outcome.call.injEq, List.cons.injEq, and_true] at h',
                  'obtain ⟨%s⟩ := h' % ', '.join('rfl' for _ in ivars) if len(ivars) > 1 else 'subst h',
-                 'simp only [VecFits, MatFits, SegFits]']
+                 'simp only [VecFits, MatFits, SegFits, MatIn]']
         incs = sorted(set(_re.findall(r"VecFits \w+ \w+' \(.*?\) (\w+)'", stmt)))
         for v in incs:
             final.append('have hi_%s := iabs_cases %s' % (v, v))
